@@ -222,6 +222,9 @@ func genMWCase(t *rapid.T, g mwGenCfg) MWCase {
 				cut = 41 * 256
 			default:
 				cut = -1
+				if rapid.IntRange(0, 3).Draw(t, "y2300") == 0 {
+					cut = -2 // year 2300: like -1, but the nanosecond count does not fit 64 bits
+				}
 			}
 			vs := MWStep{Op: "vacuum", W: w, Cut: cut}
 			if (g.mode == "c09" || g.mode == "c10") && rapid.IntRange(0, 3).Draw(t, "vacfault") == 0 {
